@@ -24,7 +24,7 @@ EXPLANATION = (
     "numeric fields are tested with `is None` in encoders when the falsy value is encodable. Value-level equality for every field value is not decided."
 )
 ASSUMPTIONS = ["struct pack/unpack layout as computed from the literal format strings", "a message object is an instance of exactly one class of its encoder's union annotation"]
-FLOORS = {"C03.R1": 30, "C03.R2": 8, "C03.R3": 120, "C03.R4": 8, "C03.R5": 40, "C03.R6": 8, "C03.R7": 4}
+FLOORS = {"C03.R8": 20, "C03.R1": 30, "C03.R2": 8, "C03.R3": 120, "C03.R4": 8, "C03.R5": 40, "C03.R6": 8, "C03.R7": 4}
 
 PAIRS = [
     ("at4", "x2A_group_ctrl", "GroupControlEncoder", "GroupControlDecoder"),
@@ -53,6 +53,8 @@ OPAQUE_OK = {
 
 def run(ctx):
     r1(ctx)
+    r1b(ctx)
+    r8(ctx)
     r2(ctx)
     r3(ctx)
     r4(ctx)
@@ -185,6 +187,111 @@ def _wrapper(ctx, R, lab, m, ci, sz, enc):
     else:
         want = {("call", "sub_message_encoder.non_repeat_size(message.sub_message)"): 1, ("mul", ("call", "sub_message_encoder.repeat_count(message.sub_message)"), ("call", "sub_message_encoder.repeat_size(message.sub_message)")): 1, 1: sub.size}
         ctx.check(ls == want, R, f"{lab}:sub-message-size", m, ci.methods["size"], "size = sub-header + non_repeat_size + repeat_count * repeat_size (of the same sub-message)", LN.l_fmt(ls))
+
+
+def r1b(ctx):
+    """Length-prefixed strings: the length byte announces len() of exactly the bytes object appended next."""
+    R = "C03.R1"
+    n = 0
+    for name, m in sorted(ctx.repo.modules.items()):
+        if not (name.startswith("pyairtouch.at4.comms.x") or name.startswith("pyairtouch.at5.comms.x")):
+            continue
+        for cname, ci in m.classes.items():
+            fn = ci.methods.get("encode")
+            if fn is None or not cname.endswith("Encoder"):
+                continue
+            for blk in [x for x in ast.walk(fn) if hasattr(x, "body") and isinstance(getattr(x, "body"), list)]:
+                for lst in (blk.body, getattr(blk, "orelse", []) or []):
+                    for a, b in zip(lst, lst[1:]):
+                        ca = a.value if isinstance(a, ast.Expr) and isinstance(a.value, ast.Call) else None
+                        cb = b.value if isinstance(b, ast.Expr) and isinstance(b.value, ast.Call) else None
+                        if ca is None or cb is None or not (isinstance(ca.func, ast.Attribute) and ca.func.attr == "append" and isinstance(cb.func, ast.Attribute) and cb.func.attr == "extend"):
+                            continue
+                        if not (ca.args and isinstance(ca.args[0], ast.Call) and dotted(ca.args[0].func) == "len" and cb.args):
+                            continue
+                        n += 1
+                        e, f_ = ca.args[0].args[0], cb.args[0]
+                        ctx.check(norm_text(e) == norm_text(f_), R, f"{name.split('.')[1]}.{name.split('.')[-1]}.{cname}:length-prefix({norm_text(f_)[:30]})", m, a, f"the length byte is len() of the bytes appended next: len({norm_text(f_)[:50]})", f"len({norm_text(e)[:50]}) - for text with multi-byte characters the character count differs from the byte count")
+    ctx.require(n >= 5, f"only {n} length-prefixed strings found in the encoders (expected the two error texts, two version strings and the zone names)")
+
+
+def r8(ctx):
+    """Request/message discrimination: a decoder classifies a frame as the (empty) request exactly for the header values the
+    encoder announces for a request; a message with zero or more records is never taken for a request."""
+    from ..model import DCVal, NotConst
+
+    R = "C03.R8"
+    count = 0
+    for name, m in sorted(ctx.repo.modules.items()):
+        gen = name.split(".")[1] if name.count(".") >= 3 else ""
+        if not (name.startswith("pyairtouch.at4.comms.x") or name.startswith("pyairtouch.at5.comms.x")):
+            continue
+        for cname, ci in m.classes.items():
+            fn = ci.methods.get("decode")
+            if fn is None or not cname.endswith("Decoder") or len(fn.args.args) < 3:
+                continue
+            hdr = fn.args.args[2].arg
+            tests = []
+            for node in fn.body:
+                if isinstance(node, ast.If):
+                    makes_req = any(isinstance(c, ast.Call) and (dotted(c.func) or "").endswith("Request") for st in node.body for c in ast.walk(st))
+                    if makes_req:
+                        tests.append(node)
+            if not tests:
+                continue
+            ecls = m.classes.get(cname.replace("Decoder", "Encoder"))
+            stride = any("repeat_count" in norm_text(t.test) or "repeat_length" in norm_text(t.test) for t in tests)
+            hci = ctx.repo.resolve_class(m, fn.args.args[2].annotation) if fn.args.args[2].annotation is not None else None
+            if hci is None:
+                continue
+
+            def val(fields):
+                return DCVal(hci, fields)
+
+            if stride:
+                req_sigs = [{"sub_message_id": 0, "non_repeat_length": 0, "repeat_length": 0, "repeat_count": 0}]
+                K = 9
+                msg_sigs = [{"sub_message_id": 0, "non_repeat_length": 0, "repeat_length": K, "repeat_count": 0}, {"sub_message_id": 0, "non_repeat_length": 0, "repeat_length": K, "repeat_count": 2}, {"sub_message_id": 0, "non_repeat_length": 0, "repeat_length": K + 2, "repeat_count": 1}]
+            else:
+                # request sizes from the encoder's size() paths
+                req_sizes, msg_sizes = set(), set()
+                if ecls is not None and "size" in ecls.methods:
+                    union = _union(ctx, m, ecls.methods["size"])
+                    for c, l, v in _paths(ctx, m, ecls, "size", union):
+                        if l is None or not _self_consistent(c):
+                            continue
+                        is_req = any(x.startswith("isinstance(") and x.split(", ")[1].rstrip(")").endswith("Request") for x in c)
+                        if is_req and set(l) <= {1}:
+                            req_sizes.add(l.get(1, 0))
+                        elif not is_req:
+                            msg_sizes.add(sum(cf for t, cf in l.items() if t == 1) + sum(cf for t, cf in l.items() if t != 1 and t[0] in ("len", "utf8", "sum")))
+                if not req_sizes:
+                    continue
+                base = {"message_id": 0, "to_address": 0, "from_address": 0, "packet_id": 0}
+                req_sigs = [dict(base, message_length=x) for x in sorted(req_sizes)]
+                msg_sigs = [dict(base, message_length=x) for x in sorted(msg_sizes) if x not in req_sizes]
+            lab = f"{gen}.{name.split('.')[-1]}.{cname}"
+
+            def first_true(sig):
+                env = {hdr: val(sig), fn.args.args[1].arg: b"\x00" * 64}
+                for i, t in enumerate(tests):
+                    try:
+                        if ctx.repo.fold(m, t.test, env):
+                            return i
+                    except NotConst as ex:
+                        raise AnalysisError(f"{m.relpath}: {cname}.decode: request test `{norm_text(t.test)}` not foldable: {ex}")
+                return None
+
+            for sig in req_sigs:
+                count += 1
+                show = {k: v for k, v in sig.items() if k in ("message_length", "repeat_length", "repeat_count")}
+                ctx.check(first_true(sig) is not None, R, f"{lab}:request{show}", m, tests[0], f"a header announcing {show} (what the encoder sends for a request) is decoded as the request", "no request test accepts it")
+            for sig in msg_sigs:
+                count += 1
+                show = {k: v for k, v in sig.items() if k in ("message_length", "repeat_length", "repeat_count")}
+                i = first_true(sig)
+                ctx.check(i is None, R, f"{lab}:message{show}", m, tests[i if i is not None else 0], f"a header announcing {show} (a status/control message, possibly with zero records) is never taken for a request", f"`{norm_text(tests[i].test)}` is true: the message comes back as a request" if i is not None else "")
+    ctx.require(count >= 20, f"only {count} request/message discrimination instances")
 
 
 # ------------------------------------------------------------------------------------------ R2
@@ -400,7 +507,13 @@ def r3(ctx):
 
 # ------------------------------------------------------------------------------------------ R4
 def r4(ctx):
+    from . import c01
+
     before = len(ctx.obligations)
+    c01.r4(ctx)
+    for o in ctx.obligations[before:]:
+        o.rule = "C03.R4"
+        o.construct = "send-path:" + o.construct
     c13.r1(ctx, "C03.R4")
     f = __import__("sa.rules.common", fromlist=["sock_fn"]).sock_fn(ctx, "_read_one_message")
     m, g = f.module, f.cfg
